@@ -8,3 +8,6 @@ mod types;
 mod util;
 
 pub mod unit;
+
+#[cfg(feature = "verif-hooks")]
+pub mod verif_hooks_sm;
